@@ -383,13 +383,27 @@ def run_api(desc, root, rec):
                 v = vio(r)
                 if v:
                     V[r.unique_id] = v
+            rep_json = rep_syn = None
+            if err is None:
+                # what the user-visible reports contain, next to the per-rule violation lists
+                try:
+                    rep_json = sorted((str(d["rule"]), str(d["linenumber"]), str(d["solution"])) for d in oRules.extract_violation_dictionary()["violations"])
+                    so, se = oRules.report_violations("syntastic")
+                    rep_syn = []
+                    for ln in ((so or "") + "\n" + (se or "")).splitlines():
+                        m = re.match(r"^\w+: .*?\((\d+)\)(\w+_\d+) -- ", ln)
+                        if m:  # (a solution text may itself contain a line break: rule and line only)
+                            rep_syn.append((m.group(2), m.group(1)))
+                    rep_syn.sort()
+                except Exception as e:
+                    err = "report: " + type(e).__name__ + ": " + str(e)[:120]
             rep_o, rep_e = None, None
             if err is None and s.get("report"):
                 try:
                     rep_o, rep_e = oRules.report_violations("vsg")
                 except Exception as e:
                     err = "report: " + type(e).__name__
-            passes.append({"ran": list(ran), "V": V, "text_ok": text_of(oFile) == T0, "class_ok": light_of(oFile) == L0, "err": err, "report": md5((rep_o or "") + "\0" + (rep_e or "")) if s.get("report") else None})
+            passes.append({"ran": list(ran), "V": V, "text_ok": text_of(oFile) == T0, "class_ok": light_of(oFile) == L0, "err": err, "report": md5((rep_o or "") + "\0" + (rep_e or "")) if s.get("report") else None, "rep_json": rep_json, "rep_syn": rep_syn})
         out["schedules"].append({"meta": meta, "passes": passes})
 
     # ---- localisation request: which earlier analyses change `reader`'s report?
